@@ -37,6 +37,11 @@ def _reciprocal(val):
     return 1 / val
 
 
+_UFUNC_OPERATORS = {np.add: operator.add, np.subtract: operator.sub,
+                    np.multiply: operator.mul,
+                    np.true_divide: operator.truediv}
+
+
 class Prior(HoloPyObject):
     """
     Base class for Bayesian priors in holopy.
@@ -108,6 +113,15 @@ class Prior(HoloPyObject):
 
     def __array_ufunc__(self, ufunc, method, *args, name=None, **kwargs):
         if method == "__call__" and len(kwargs) == 0:
+            operation = _UFUNC_OPERATORS.get(ufunc)
+            if (operation is not None and name is None and len(args) == 2
+                    and all(isinstance(arg, (Number, Prior)) for arg in args)):
+                # numpy scalars dispatch their operators through ufuncs, so
+                # ``np.float64(2) * prior`` arrives here: treat it as
+                # ``2 * prior`` (identities, refusal to multiply by 0)
+                left, right = [arg.item() if isinstance(arg, np.generic)
+                               else arg for arg in args]
+                return operation(left, right)
             return TransformedPrior(ufunc, args, name)
         else:
             raise TypeError('Could not apply numpy ufunc to Prior object. '
